@@ -349,11 +349,13 @@ def parse_sim_file(path: Path):
 # Known findings
 # --------------------------------------------------------------------------------------------
 def load_known_findings():
+    out = []
     f = VERIF / "known_findings.json"
-    if not f.exists():
-        return []
-    data = json.loads(f.read_text())
-    return data.get("findings", [])
+    if f.exists():
+        out += json.loads(f.read_text()).get("findings", [])
+    for g in sorted((VERIF / "known_findings.d").glob("*.json")):
+        out += json.loads(g.read_text()).get("findings", [])
+    return out
 
 
 # --------------------------------------------------------------------------------------------
@@ -483,7 +485,8 @@ class Ctx:
         evdir = VERIF / "evidence"
         evdir.mkdir(exist_ok=True)
         (evdir / f"{self.pid}.json").write_text(json.dumps(ev, indent=1, default=str))
-        shutil.rmtree(self.work, ignore_errors=True)
+        if not os.environ.get("VERIF_KEEP"):
+            shutil.rmtree(self.work, ignore_errors=True)
         for k, v in sorted(self.viol_classes.items(), key=lambda kv: -kv[1])[:40]:
             print(f"  [{self.pid}] rejected x{v}: {k}")
         status = "FAIL" if self.violations else "OK"
